@@ -2,13 +2,21 @@
 
 S1  TLC checks AdapterContract.tla: K concurrent requests through an adapter written the way the contract demands
     (entry, early return on block, deferred exit, trace on error) satisfy the contract automaton, the in-flight gauge
-    is exact and returns to 0; five deliberately broken adapters (Mut) each violate the clause they break.
+    is exact and returns to 0; the SIDE of an entry point (server = inbound, client = outbound) is a parameter of the
+    model: a server-side request is blocked by system protection (block type system) iff the loaded system rule is
+    violated when the entry is asked, a client-side call never is, nothing is blocked without a cause, and the global
+    inbound gauge counts exactly the server-side requests in flight; seven deliberately broken adapters (Mut) each
+    violate the clause they break.
 S2/S3  for every adapter module that builds offline (echo fiber gear gin go-zero goframe grpc iris kratos micro) the
     module is copied from $VERIF_REPO/pkg/adapters/<x> to a scratch dir, retargeted to the working tree of the core
     (go mod edit -go=1.22 -replace ...=$VERIF_REPO, go.sum appended), the driver adapters/<x>/driver_test.go +
     adapters/_common/verifcommon_test.go dropped in, and `go test -run TestVerifDriver` run (all adapters in parallel).
     The driver sends {admitted, blocked} x {handler ok, error, panic} through EVERY exported entry point with and
-    without fallback / resource-extractor options, three rounds, and records one event log per request.
+    without fallback / resource-extractor options, three rounds, and records one event log per request.  Next to
+    these flow-rule scenarios every (entry point, variant) is sent through the system-protection scenarios sys-conc /
+    sys-qps (a VIOLATED system rule is the only rule in force) and sys-slack (loaded, not violated); the block type of
+    every block and the global inbound gauge (as the handler sees it, and afterwards) are recorded.  An entry point
+    without these scenarios, or whose declared side contradicts its name, is exit 2.
     hertz and kitex are probed too: they do not build with the installed toolchain and are listed as not covered.
     Guard: every exported function of an adapter package must be a driven entry point, an exercised option, or be
     listed in NOT_ENTRY with a reason - otherwise exit 2 ("uncovered entry point").
@@ -132,6 +140,9 @@ def prepare_nofail(c, a):
         return None
 
 
+SYS_LOADS = ['sys-conc', 'sys-qps', 'sys-slack']     # system-protection scenarios (adapters/_common: VSysLoads)
+
+
 def desc(e):
     return (e['adapter'], e['ep'], e['variant'], e['want'], e['cls']['outcome'])
 
@@ -179,13 +190,36 @@ def binding_selftest(c, good):
     for e in take(adm, 6):
         ev = e['events']; i, j = ev.index('handler'), [k for k, x in enumerate(ev) if x.startswith('complete')][0]
         ev[i], ev[j] = ev[j], ev[i]; e['corr'] = 'exit before handler'; out.append(e)
-    if len(out) < 20:
-        raise MachineryError('binding self-test: too few accepted requests to corrupt (%d)' % len(out))
+    n_old = len(out)
+    sysblk = lambda e: e['cls']['sys'] == 'violated' and e['cls']['side'] == 'server' and blk(e)
+    sysadm = lambda e: e['cls']['sys'] == 'violated' and e['cls']['side'] == 'client' and adm(e)
+    for e in take(sysblk, 10):
+        e['events'] = ['pass', 'handler', 'complete']; e['btype'] = ''; e['inbh'] = 1; e['corr'] = 'server request admitted under a violated system rule'; out.append(e)
+    for e in take(sysblk, 8):
+        e['btype'] = 'flow'; e['corr'] = 'system block carries another block type'; out.append(e)
+    for e in take(sysblk, 6):
+        e['cls']['side'] = 'client'; e['corr'] = 'client call blocked by system protection'; out.append(e)
+    for e in take(sysadm, 8):
+        e['events'] = ['block', 'fallback' if e['cls']['fb'] == 'custom' else 'reject']; e['btype'] = 'system'; e['inbh'] = -1
+        e['corr'] = 'client call blocked by system protection (log)'; out.append(e)
+    for e in take(lambda e: adm(e) and e['cls']['side'] == 'server' and e['inbh'] == 1, 8):
+        e['inbh'] = 0; e['corr'] = 'server request not counted on the inbound node'; out.append(e)
+    for e in take(lambda e: adm(e) and e['cls']['side'] == 'client' and e['inbh'] == 0, 8):
+        e['inbh'] = 1; e['corr'] = 'client call counted on the inbound node'; out.append(e)
+    for e in take(lambda e: adm(e) and e['cls']['side'] == 'server', 6):
+        e['inb'] = 1; e['corr'] = 'inbound gauge stuck'; out.append(e)
+    for e in take(lambda e: e['cls']['sys'] == 'slack' and adm(e), 6):
+        e['events'] = ['block', 'fallback' if e['cls']['fb'] == 'custom' else 'reject']; e['btype'] = 'system'; e['inbh'] = -1
+        e['corr'] = 'blocked although no rule is violated'; out.append(e)
+    for e in take(lambda e: blk(e) and e['cls']['flow'] and e['src'] == 'slot', 6):
+        e['btype'] = 'system'; e['corr'] = 'flow block carries block type system'; out.append(e)
+    if len(out) < 20 or len(out) - n_old < 40:
+        raise MachineryError('binding self-test: too few accepted requests to corrupt (%d, %d of the system-protection kinds)' % (len(out), len(out) - n_old))
     bad, r = validate(c, out, 'corrupt')
     missed = [e['corr'] for e in out if e['tr'] not in bad]
     if missed:
         raise MachineryError('binding self-test failed: corrupted requests accepted: %s' % sorted(set(missed)))
-    c.cov['binding_selftest'] = '%d corrupted event logs (9 kinds of corruption), all rejected' % len(out)
+    c.cov['binding_selftest'] = '%d corrupted event logs (%d kinds of corruption), all rejected' % (len(out), len({e['corr'] for e in out}))
     c.log('binding self-test: %d corrupted event logs, all rejected by AdapterContract_Trace' % len(out))
 
 
@@ -251,13 +285,34 @@ def check(c, tier, replay):
     c.cov['exhaustive'] = True
     muts = {'no-defer': ('ContractHonoured', 'GaugeExact', 'GaugeReturns', 'ExitOnce'), 'handler-when-blocked': ('ContractHonoured', 'NoHandlerWhenBlocked'),
             'double-exit': ('ContractHonoured', 'ExitOnce', 'GaugeExact', 'TypeOK', 'GaugeReturns'), 'no-trace': ('ContractHonoured', 'ErrorTraced'),
-            'no-fallback': ('ContractHonoured', 'FallbackProduced')}
+            'no-fallback': ('ContractHonoured', 'FallbackProduced'),
+            'server-as-outbound': ('ContractHonoured', 'SystemProtects', 'InboundExact', 'GaugeReturns'),
+            'client-as-inbound': ('ContractHonoured', 'ClientNeverSystemBlocked', 'BlockHasCause', 'InboundExact', 'GaugeReturns')}
+    inv_line = [l for l in cfg.splitlines() if l.startswith('INVARIANTS')]
+    if len(inv_line) != 1:
+        raise MachineryError('AdapterContract_MC.cfg: one INVARIANTS line expected')
+
+    def mutant(mut, only=None):
+        t = cfg.replace('K = 3', 'K = 2').replace('Mut = "none"', 'Mut = "%s"' % mut)
+        if only:
+            t = t.replace(inv_line[0], 'INVARIANTS ' + only)
+        return c.tlc('AdapterContract_MC', cfg_text=t, workers=2, timeout=300, count=False)
     for mut, props in muts.items():
-        r = c.tlc('AdapterContract_MC', cfg_text=cfg.replace('K = 3', 'K = 2').replace('Mut = "none"', 'Mut = "%s"' % mut), workers=2, timeout=300, count=False)
+        if mut in ('server-as-outbound', 'client-as-inbound'):
+            continue                      # judged clause by clause below
+        r = mutant(mut)
         if r.violated not in props:
             raise MachineryError('vacuity self-test: broken adapter %s should violate one of %s, TLC says %s %s' % (mut, props, r.violated, r.error))
-    c.cov['spec_mutants'] = 'no-defer, handler-when-blocked, double-exit, no-trace, no-fallback: each violates the contract invariants'
-    c.log('S1 vacuity: the five broken adapter designs violate the contract invariants')
+    # the side clauses one by one: each must be violated ON ITS OWN by the adapter that breaks it
+    for mut, inv in [('server-as-outbound', 'SystemProtects'), ('server-as-outbound', 'ContractHonoured'), ('server-as-outbound', 'InboundExact'),
+                     ('client-as-inbound', 'ClientNeverSystemBlocked'), ('client-as-inbound', 'ContractHonoured'), ('client-as-inbound', 'BlockHasCause')]:
+        r = mutant(mut, inv)
+        if r.violated != inv:
+            raise MachineryError('vacuity self-test: broken adapter %s should violate %s on its own, TLC says %s %s' % (mut, inv, r.violated, r.error))
+    c.cov['spec_mutants'] = ('no-defer, handler-when-blocked, double-exit, no-trace, no-fallback, server-as-outbound, client-as-inbound: each violates the '
+                             'contract invariants; server-as-outbound violates SystemProtects / ContractHonoured / InboundExact each on its own, '
+                             'client-as-inbound ClientNeverSystemBlocked / ContractHonoured / BlockHasCause')
+    c.log('S1 vacuity: the seven broken adapter designs violate the contract invariants (side clauses also one by one)')
     # S2 + S3 ----------------------------------------------------------------------------
     with cf.ThreadPoolExecutor(max_workers=2) as ex:
         probes = {a: ex.submit(probe_unbuildable, c, a) for a in UNBUILDABLE}
@@ -285,11 +340,23 @@ def check(c, tier, replay):
             unc.append(f)
         if unc:
             raise MachineryError('uncovered entry point(s) in adapter %s: %s (no driver case, not an exercised option, not listed in NOT_ENTRY)' % (a, unc))
+        sides = reg.get('sides') or {}
         for ep in eps:
-            have = {(e['want'], 'block' in e['events']) for e in reqs if e['ep'] == ep}
+            have = {(e['want'], 'block' in e['events']) for e in reqs if e['ep'] == ep and e['want'] in ('admit', 'block')}
             if not any(b for _, b in have) or not any(not b for _, b in have):
                 raise MachineryError('adapter %s entry point %s: the driver did not produce both an admitted and a blocked request' % (a, ep))
-        covered[a] = dict(entry_points=sorted(eps), options=sorted(opts), requests=len(reqs), variants=sorted({e['ep'] + ' / ' + e['variant'] for e in reqs}),
+            # the side is what the entry point is: declared by the driver, cross-checked with the exported name
+            if sides.get(ep) not in ('server', 'client') or (sides[ep] == 'client') != ('Client' in ep):
+                raise MachineryError('adapter %s entry point %s: side %r declared by the driver contradicts its name' % (a, ep, sides.get(ep)))
+            for v in sorted({e['variant'] for e in reqs if e['ep'] == ep}):
+                got = {e['want'] for e in reqs if e['ep'] == ep and e['variant'] == v}
+                miss = [x for x in SYS_LOADS if x not in got]
+                if miss:
+                    raise MachineryError('adapter %s entry point %s / %s: no system-protection scenario %s (uncovered entry point)' % (a, ep, v, miss))
+            for e in reqs:
+                if e['ep'] == ep and (e['cls']['side'] != sides[ep] or e['cls']['sys'] != {'sys-conc': 'violated', 'sys-qps': 'violated', 'sys-slack': 'slack'}.get(e['want'], 'none')):
+                    raise MachineryError('adapter %s entry point %s: request class %s does not match the scenario %s' % (a, ep, e['cls'], e['want']))
+        covered[a] = dict(entry_points=sorted(eps), sides=sides, options=sorted(opts), requests=len(reqs), variants=sorted({e['ep'] + ' / ' + e['variant'] for e in reqs}),
                           not_entry_points=NOT_ENTRY.get(a, {}), wall_s=round(wall, 1))
         allreq += reqs
         c.log('S3 %-8s %d entry points, %d variants, %d requests (%.0fs)' % (a, len(eps), len(covered[a]['variants']), len(reqs), wall))
@@ -303,11 +370,20 @@ def check(c, tier, replay):
     good = [e for e in allreq if e['tr'] not in bad]
     binding_selftest(c, good)
     # drift: the driver wanted a block (rule with threshold 0 on the resource it computed) but the adapter used another resource name
-    drift = sorted({(e['adapter'], e['ep'], e['variant']) for e in allreq if (e['want'] == 'block') != ('block' in e['events']) and e['events']})
+    drift = sorted({(e['adapter'], e['ep'], e['variant']) for e in allreq
+                    if e['want'] in ('admit', 'block') and (e['want'] == 'block') != ('block' in e['events']) and e['events']})
     c.cov['conformance_mismatches'] = len(drift)
     c.cov['resource_extractor_not_honoured'] = [' / '.join(x) for x in drift]
     for x in drift:
         c.log('drift (not judged): %s: the request meant to be blocked used another resource name than the configured extractor yields' % ' / '.join(x))
+    sysreq = [e for e in allreq if e['want'] in SYS_LOADS]
+    c.cov['system_protection_scenarios'] = dict(
+        requests=len(sysreq),
+        server_blocked_by_system=sum(1 for e in sysreq if e['cls']['side'] == 'server' and e['cls']['sys'] == 'violated' and 'block' in e['events'] and e['btype'] == 'system'),
+        client_admitted_under_violated_rule=sum(1 for e in sysreq if e['cls']['side'] == 'client' and e['cls']['sys'] == 'violated' and 'pass' in e['events']),
+        admitted_under_slack_rule=sum(1 for e in sysreq if e['cls']['sys'] == 'slack' and 'pass' in e['events']),
+        entry_points={s: len({(e['adapter'], e['ep']) for e in sysreq if e['cls']['side'] == s}) for s in ('server', 'client')})
+    c.log('S4 system protection: %s' % c.cov['system_protection_scenarios'])
     c.cov['distinct_nontrivial'] = len({(desc(e), tuple(e['events'])) for e in allreq})
     c.cov['rule'] = ('one trace = one request through one (adapter, entry point, option variant, admitted|blocked, handler outcome); every request '
                      'exercises the contract (non-trivial); distinct = distinct (descriptor, event log) pairs; each is sent in three rounds')
@@ -346,8 +422,9 @@ def check(c, tier, replay):
                 c.known(key, c.kf[key]['description'])
             else:
                 c.violation(what + (' [%s]' % key if key else ''), rp)
-    for e in (good[:1] + [x for x in good if 'block' in x['events']][:1] + [x for x in allreq if x['tr'] in bad][:1]):
-        c.sample({k: e[k] for k in ('adapter', 'ep', 'variant', 'want', 'cls', 'events', 'conc', 'escaped')})
+    for e in (good[:1] + [x for x in good if 'block' in x['events']][:1] + [x for x in good if x['btype'] == 'system'][:1]
+              + [x for x in good if x['want'] == 'sys-conc' and x['cls']['side'] == 'client'][:1] + [x for x in allreq if x['tr'] in bad][:1]):
+        c.sample({k: e[k] for k in ('adapter', 'ep', 'variant', 'want', 'cls', 'events', 'btype', 'conc', 'inb', 'inbh', 'escaped')})
     c.assumptions += ['executions, not syntax trees: the ten adapter modules that build offline are driven through every exported entry point; '
                       'hertz and kitex do not build with the installed toolchain and are not covered (DESIGN section 8)',
                       'handler errors must be traced only where the framework hands the error to the middleware (echo, fiber, gear, grpc, kratos, '
@@ -358,7 +435,12 @@ def check(c, tier, replay):
                       'entry points that build a private slot chain (outlier branches of kratos and micro Call) are observed through snapshots of '
                       'the resource statistic node taken at every driver event instead of the recording slot on the global chain',
                       'a double Exit is absorbed by the once-guard of SentinelEntry.Exit (C01): exit-once is judged on completions',
-                      'a resource extractor option that is not honoured is reported as drift, not judged (the statement does not mention it)']
+                      'a resource extractor option that is not honoured is reported as drift, not judged (the statement does not mention it)',
+                      'the side of an entry point (server = guards inbound traffic, client = outbound calls) is part of its API: declared per entry '
+                      'point by the driver and cross-checked with the exported name (client entry points carry "Client" in their name)',
+                      'system-protection scenarios: the violated rule is system.Concurrency 1 with one inbound entry held by the driver itself, or '
+                      'system.InboundQPS 0; the arrangement is confirmed by a direct inbound probe entry before each request (else exit 2); the '
+                      'block type of entry points with a private slot chain is not observable and not judged']
 
 
 main('C19', check)
